@@ -464,6 +464,19 @@ class Program:
         from .renames import reference as _reference
         self.scalarised = scalarise([(short(n_), t_) for n_, _p, _s, t_, _k in processed], set(_reference()[1]))
         canon_trees = [(name, path, src, canonicalise(tree, short(name)), is_pkg) for name, path, src, tree, is_pkg in processed]
+        # second round: canonicalisation turns calls through tables / conditional expressions into direct calls of helpers that can be inlined now
+        round2 = []
+        for name, path, src, tree, is_pkg in canon_trees:
+            elsewhere = set().union(*[v for k_, v in attr_by_module.items() if k_ != name]) if len(attr_by_module) > 1 else set()
+            try:
+                tree2, inl2 = inline_new_helpers(tree, short(name), ambiguous, pkg_funcs, pkg_meths, is_pkg, imported | elsewhere, pkg_bindings, self_ambiguous)
+            except Exception:
+                tree2, inl2 = tree, []
+            if [x for x in inl2 if not x.startswith("-")]:
+                self.inlined.setdefault(name, []).extend(x for x in inl2 if x not in self.inlined.get(name, []))
+                tree2 = canonicalise(tree2, short(name))
+            round2.append((name, path, src, tree2, is_pkg))
+        canon_trees = round2
         if self.scalarised:
             # canonicalisation may have exposed more of them (a callee chosen by a conditional expression is now a direct call on each arm)
             scalarise([(short(n_), t_) for n_, _p, _s, t_, _k in canon_trees], set(_reference()[1]))
